@@ -1337,20 +1337,29 @@ class TrigInfo:
                     last_trig_time = time.monotonic()
 
         except asyncio.CancelledError:
+            #
+            # stop() unsubscribes before it asks for this task to be canceled, but when it
+            # runs right after start() this task subscribes only afterwards
+            #
+            self.notify_del_all()
             raise
 
         except Exception as exc:
             # _LOGGER.error(f"{self.name}: " + traceback.format_exc(-1))
             _LOGGER.error("%s: %s", self.name, exc)
-            if self.state_trig_ident:
-                State.notify_del(self.state_trig_ident, self.notify_q)
-            if self.event_trigger is not None:
-                Event.notify_del(self.event_trigger[0], self.notify_q)
-            if self.mqtt_trigger is not None:
-                Mqtt.notify_del(self.mqtt_trigger[0], self.notify_q)
-            if self.webhook_trigger is not None:
-                Webhook.notify_del(self.webhook_trigger[0], self.notify_q)
+            self.notify_del_all()
             return
+
+    def notify_del_all(self):
+        """Remove all the notifications this trigger subscribed to."""
+        if self.state_trig_ident:
+            State.notify_del(self.state_trig_ident, self.notify_q)
+        if self.event_trigger is not None:
+            Event.notify_del(self.event_trigger[0], self.notify_q)
+        if self.mqtt_trigger is not None:
+            Mqtt.notify_del(self.mqtt_trigger[0], self.notify_q)
+        if self.webhook_trigger is not None:
+            Webhook.notify_del(self.webhook_trigger[0], self.notify_q)
 
     async def _call_expression(self, ast_expr, notify_info):
         try:
